@@ -214,6 +214,13 @@ func handleViolations(spec *Spec, ev *Evidence, viols []*Violation) (int, string
 			run := ReplayRun{ID: id, Fn: v.Case.Fn, Pkg: v.Case.Pkg, Args: v.Case.Args, Nondet: v.Inputs, Expect: "violation", Msg: v.Msg, Notes: v.Notes}
 			res, out := nativeReplay(spec.Property, v.Case.Pkg, []ReplayRun{run}, file)
 			lastOut = out
+			if !strings.HasPrefix(res[id], "CONFIRMED") && strings.HasPrefix(v.Msg, "data race") {
+				// the race detector only reports races that happen in the run: repeat
+				for k := 0; k < 4 && !strings.HasPrefix(res[id], "CONFIRMED"); k++ {
+					res, out = nativeReplay(spec.Property, v.Case.Pkg, []ReplayRun{run}, file)
+					lastOut = out
+				}
+			}
 			if !strings.HasPrefix(res[id], "CONFIRMED") && i == 0 {
 				// timing-dependent native runs: one retry with a slower harness clock
 				replayTimeScale = 8
